@@ -99,6 +99,7 @@ type wConfig struct {
 	NoPush     bool  `json:"nopush,omitempty"`
 	Calls      bool  `json:"calls,omitempty"`
 	CallTimeout int  `json:"calltimeout,omitempty"`
+	CallsOffIce bool `json:"callsoffice,omitempty"` // calls are not enabled but the config lists ICE servers
 	Anon       []int `json:"anon,omitempty"` // indices of users that log in at anonymous level
 	Media      bool  `json:"media,omitempty"` // configure the fs media handler (sticky per process)
 	Bkg        []int `json:"bkg,omitempty"`   // session slots which say {hi bkg=true}
@@ -262,11 +263,16 @@ func wBoot(cfg wConfig) *wWorld {
 	globals.permanentAccounts = false
 	globals.iceServers = nil
 	globals.callEstablishmentTimeout = 0
-	if cfg.Calls {
-		globals.iceServers = []iceServer{{Urls: []string{"stun:example.org"}}}
-		globals.callEstablishmentTimeout = 30
+	// through the server's own reading of the "webrtc" section of its config file: calling is
+	// configured iff 'enabled' is set (the stock config lists ICE servers and leaves it off)
+	if cfg.Calls || cfg.CallsOffIce {
+		to := 30
 		if cfg.CallTimeout > 0 {
-			globals.callEstablishmentTimeout = cfg.CallTimeout
+			to = cfg.CallTimeout
+		}
+		js := fmt.Sprintf(`{"enabled":%v,"call_establishment_timeout":%d,"ice_servers":[{"urls":["stun:example.org"]}]}`, cfg.Calls, to)
+		if err := initVideoCalls(json.RawMessage(js)); err != nil {
+			panic("initVideoCalls: " + err.Error())
 		}
 	}
 	if cfg.Media {
@@ -684,6 +690,13 @@ func (w *wWorld) resolve(ref string, u int) string {
 			return types.GrpToChn(w.groups[k])
 		}
 		return w.groups[k]
+	case len(ref) == 3 && ref[0] == 'Q':
+		// the full p2pXXX name of the topic between users i and j, whoever sends it
+		i, j := int(ref[1]-'0'), int(ref[2]-'0')
+		if i < 0 || j < 0 || i >= len(w.users) || j >= len(w.users) || i == j {
+			return ""
+		}
+		return w.users[i].uid.P2PName(w.users[j].uid)
 	case len(ref) >= 2 && (ref[0] == 'p' || ref[0] == 'P'):
 		k := wAtoi(ref[1:])
 		if k < 0 || k >= len(w.users) {
